@@ -1496,6 +1496,9 @@ impl Zeroconf {
                     // Commands queued behind Exit are not executed. Drop them now:
                     // they would stay in the channel as long as any handle lives,
                     // with their reply and event channels neither answered nor closed.
+                    #[cfg(feature = "verif-hooks")]
+                    crate::verif::exit_drain_begins();
+
                     while receiver.try_recv().is_ok() {}
 
                     #[cfg(feature = "verif-hooks")]
